@@ -101,6 +101,10 @@ class Segmentation:
             self.prior = None
 
         self.ngb_size = int(ngb_size)
+        # the C routines only know the 6- and 26-neighborhood systems
+        # (and dereference a NULL table for anything else)
+        if self.ngb_size not in (6, 26):
+            raise ValueError('ngb_size should be 6 or 26')
         self.set_markov_prior(beta, U=U)
 
     def set_markov_prior(self, beta, U=None):
